@@ -683,7 +683,8 @@ async fn run_histories(first: usize, backend: Backend, depth: usize, work: &Path
                             // the account key at this point: the latest accepted account password
                             let cur = markers.iter().rev().find(|(n, _)| n == "accepted_account_password").map(|(_, v)| String::from_utf8(v.clone()).unwrap()).unwrap_or(vkit::acct::PASSWORD.to_string());
                             let key = AccessKey::Password(secrecy::SecretString::new(cur.into()));
-                            a.change_cipher(&key, &sos_core::crypto::Cipher::AesGcm256, None).await?;
+                            // new accounts use AES-GCM-256: the other cipher and KDF force a real conversion
+                            a.change_cipher(&key, &sos_core::crypto::Cipher::XChaCha20Poly1305, Some(sos_core::crypto::KeyDerivation::BalloonHash)).await?;
                         }
                         "export_backup_archive" => {
                             a.export_backup_archive(&cdir.join(format!("backup-{}.zip", pos))).await?;
